@@ -685,6 +685,7 @@ static void set_field(KSI_CTX *ctx, KSI_Config *cfg, int f, int64_t v) {
 }
 static void ref_fold(conf_t *acc, const conf_t *c);
 static int kind_has(int kind, int f);
+static void b_push(int e, const conf_t *c);
 static int b_consolidate_cb(KSI_CTX *ctx, size_t id, void *userp, KSI_Config *haConfig, KSI_Config *respConfig) {
 	conf_t cur, resp;
 	int f;
@@ -755,35 +756,12 @@ static int b_run(void) {
 	KSI_AsyncHandle_free(out);
 	return 1;
 }
-static void b_open(int kind, int nE, int mode) {
+/* the TCP sub-services connect only when there is something to send: one request, refused by every endpoint with an error status */
+static void b_prime(void) {
 	KSI_AsyncHandle *h = NULL;
-	int e, r, setup = (mode == 3);   /* mode 3: handle delivery on a service whose first endpoint was given with KSI_AsyncService_setEndpoint */
-	int ctxcb = (mode == 4);         /* mode 4: callback delivery through the callback registered on the CONTEXT for this kind of service */
-	int usercons = (mode == 5);      /* mode 5: callback delivery, the application consolidates (KSI_ASYNC_OPT_CONF_CONSOLIDATE_CALLBACK) */
-	if (setup) mode = 1;
-	if (ctxcb || usercons) mode = 0;
-	memset(&B, 0, sizeof B);
-	B.kind = kind; B.nE = nE; B.mode = mode; B.user_consolidate = usercons;
-	conf_clear(&B.view);
-	sn_reset(); fc_reset();
-	sn.after_send = b_after_send;
-	B.ctx = ku_ctx();
-	if ((kind == RP_AGGR ? KSI_SigningHighAvailabilityService_new(B.ctx, &B.ha) : KSI_ExtendingHighAvailabilityService_new(B.ctx, &B.ha)) != KSI_OK) vf_harness_error("HA service");
-	for (e = 0; e < nE; e++) {
-		char uri[64];
-		snprintf(uri, sizeof uri, "ksi+tcp://ha%d.test:%d", e, 1001 + e);
-		if (setup && e == 0) { if (KSI_AsyncService_setEndpoint(B.ha, uri, LOGIN, KEY) != KSI_OK) vf_harness_error("setEndpoint"); }
-		else if (KSI_AsyncService_addEndpoint(B.ha, uri, LOGIN, KEY) != KSI_OK) vf_harness_error("addEndpoint");
-	}
-	KSI_AsyncService_setOption(B.ha, KSI_ASYNC_OPT_MAX_REQUEST_COUNT, (void *)(size_t)8);
-	if (mode == 0 && !ctxcb && KSI_AsyncService_setOption(B.ha, KSI_ASYNC_OPT_PUSH_CONF_CALLBACK, (void *)b_conf_cb) != KSI_OK) vf_harness_error("callback option");
-	if (usercons && KSI_AsyncService_setOption(B.ha, KSI_ASYNC_OPT_CONF_CONSOLIDATE_CALLBACK, (void *)b_consolidate_cb) != KSI_OK) vf_harness_error("consolidate callback option");
-	if (ctxcb) {
-		/* the callback of the other kind of service is registered as well: it must never see this service's configuration */
-		if (KSI_CTX_setOption(B.ctx, kind == RP_AGGR ? KSI_OPT_AGGR_CONF_RECEIVED_CALLBACK : KSI_OPT_EXT_CONF_RECEIVED_CALLBACK, (void *)b_conf_cb) != KSI_OK) vf_harness_error("context callback");
-		if (KSI_CTX_setOption(B.ctx, kind == RP_AGGR ? KSI_OPT_EXT_CONF_RECEIVED_CALLBACK : KSI_OPT_AGGR_CONF_RECEIVED_CALLBACK, (void *)b_conf_cb_other) != KSI_OK) vf_harness_error("context callback");
-	}
-	/* the TCP sub-services connect only when there is something to send: one request, refused by every endpoint with an error status */
+	int kind = B.kind, nE = B.nE, e, r;
+	B.prime_done = 0;
+	for (e = 0; e < MAXE; e++) B.prime_seen[e] = 0;
 	if (kind == RP_AGGR) {
 		KSI_DataHash *dh = NULL;
 		unsigned char hh[RH_MAX_IMPRINT];
@@ -814,8 +792,61 @@ static void b_open(int kind, int nE, int mode) {
 		vb_free(&b); vb_free(&payload);
 	}
 	for (r = 0, e = 0; r < 12 && e < 2; r++) e = b_run() ? 0 : e + 1;
-	if (B.ndeliv) vf_harness_error("configuration delivered before any was pushed");
 	B.prime_done = 1;
+}
+static void b_open(int kind, int nE, int mode) {
+	KSI_AsyncHandle *h = NULL;
+	int e, r, setup = (mode == 3);   /* mode 3: handle delivery on a service whose first endpoint was given with KSI_AsyncService_setEndpoint */
+	int ctxcb = (mode == 4);         /* mode 4: callback delivery through the callback registered on the CONTEXT for this kind of service */
+	int usercons = (mode == 5);      /* mode 5: callback delivery, the application consolidates (KSI_ASYNC_OPT_CONF_CONSOLIDATE_CALLBACK) */
+	int reset = (mode == 6);         /* mode 6: callback delivery on a service that was re-pointed with KSI_AsyncService_setEndpoint after it had already
+	                                  * consolidated dominating values from its former endpoints: they no longer take part */
+	if (setup) mode = 1;
+	if (ctxcb || usercons || reset) mode = 0;
+	memset(&B, 0, sizeof B);
+	B.kind = kind; B.nE = nE; B.mode = mode; B.user_consolidate = usercons;
+	conf_clear(&B.view);
+	sn_reset(); fc_reset();
+	sn.after_send = b_after_send;
+	B.ctx = ku_ctx();
+	if ((kind == RP_AGGR ? KSI_SigningHighAvailabilityService_new(B.ctx, &B.ha) : KSI_ExtendingHighAvailabilityService_new(B.ctx, &B.ha)) != KSI_OK) vf_harness_error("HA service");
+	for (e = 0; e < nE; e++) {
+		char uri[64];
+		snprintf(uri, sizeof uri, "ksi+tcp://ha%d.test:%d", e, 1001 + e);
+		if (setup && e == 0) { if (KSI_AsyncService_setEndpoint(B.ha, uri, LOGIN, KEY) != KSI_OK) vf_harness_error("setEndpoint"); }
+		else if (KSI_AsyncService_addEndpoint(B.ha, uri, LOGIN, KEY) != KSI_OK) vf_harness_error("addEndpoint");
+	}
+	KSI_AsyncService_setOption(B.ha, KSI_ASYNC_OPT_MAX_REQUEST_COUNT, (void *)(size_t)8);
+	if (mode == 0 && !ctxcb && KSI_AsyncService_setOption(B.ha, KSI_ASYNC_OPT_PUSH_CONF_CALLBACK, (void *)b_conf_cb) != KSI_OK) vf_harness_error("callback option");
+	if (usercons && KSI_AsyncService_setOption(B.ha, KSI_ASYNC_OPT_CONF_CONSOLIDATE_CALLBACK, (void *)b_consolidate_cb) != KSI_OK) vf_harness_error("consolidate callback option");
+	if (ctxcb) {
+		/* the callback of the other kind of service is registered as well: it must never see this service's configuration */
+		if (KSI_CTX_setOption(B.ctx, kind == RP_AGGR ? KSI_OPT_AGGR_CONF_RECEIVED_CALLBACK : KSI_OPT_EXT_CONF_RECEIVED_CALLBACK, (void *)b_conf_cb) != KSI_OK) vf_harness_error("context callback");
+		if (KSI_CTX_setOption(B.ctx, kind == RP_AGGR ? KSI_OPT_EXT_CONF_RECEIVED_CALLBACK : KSI_OPT_AGGR_CONF_RECEIVED_CALLBACK, (void *)b_conf_cb_other) != KSI_OK) vf_harness_error("context callback");
+	}
+	b_prime();
+	if (B.ndeliv) vf_harness_error("configuration delivered before any was pushed");
+	if (reset) {
+		conf_t stale;
+		conf_clear(&stale);
+		stale.v[F_LEVEL] = 20; stale.v[F_PERIOD] = 100; stale.v[F_REQS] = 16000; stale.v[F_FIRST] = CAL_BEGIN; stale.v[F_LAST] = (int64_t)T0 + 86400 * 3650;
+		b_push(0, &stale);
+		for (r = 0, e = 0; r < 10 && e < 2; r++) e = b_run() ? 0 : e + 1;
+		if (B.ndeliv == 0) vf_harness_error("the configuration of the former endpoint was not delivered");
+		/* the service is pointed at its endpoints anew: setEndpoint drops every former endpoint and what was learnt from them */
+		for (e = 0; e < nE; e++) {
+			char uri[64];
+			snprintf(uri, sizeof uri, "ksi+tcp://ha%d.test:%d", e, 1001 + e);
+			if ((e == 0 ? KSI_AsyncService_setEndpoint(B.ha, uri, LOGIN, KEY) : KSI_AsyncService_addEndpoint(B.ha, uri, LOGIN, KEY)) != KSI_OK) vf_harness_error("re-pointing the HA service");
+		}
+		KSI_AsyncService_setOption(B.ha, KSI_ASYNC_OPT_MAX_REQUEST_COUNT, (void *)(size_t)8);
+		conf_clear(&B.view); B.ndeliv = B.ndeliv_cb = B.ndeliv_h = 0;
+		for (e = 0; e < MAXE; e++) B.pushed[e] = 0;
+		b_prime();
+		if (B.ndeliv) conf_fail("conf-delivered-after-reset", "a configuration was delivered right after the HA service was re-pointed, before any of its new endpoints pushed one");
+		conf_clear(&B.view); B.ndeliv = B.ndeliv_cb = B.ndeliv_h = 0;
+		vf_outcome("conf:after-setEndpoint-reset");
+	}
 }
 static void b_close(void) {
 	KSI_AsyncService_free(B.ha);
@@ -900,7 +931,7 @@ static void b_multiset(int kind, int nE, int n, const conf_t *cfg, const int *ep
 	int mode, f, j, distinct_eps = 1, nperm_total = 0;
 	int bad[NF] = {0};
 	for (j = 0; j < n; j++) { int i; for (i = 0; i < j; i++) if (eps[i] == eps[j]) distinct_eps = 0; }
-	for (mode = 0; mode < 6; mode++) {
+	for (mode = 0; mode < 7; mode++) {
 		int p[3] = {0, 1, 2}, first = 1;
 		conf_t ref_final;
 		char first_order[8] = "";
